@@ -17,7 +17,8 @@ theorem solveCnf_spec (fuel : Nat) (cnf : CNF) (o : Oracle) :
     (∀ a, solveCnf fuel cnf o = .sat a → isSolution cnf a = true) ∧
     (∀ c' ps, solveCnf fuel cnf o = .unsat c' ps →
       (¬ ∃ σ, Sat σ cnf) ∧ checkTrace c' cnf.length ps = true ∧
-      c'.take cnf.length = cnf.map dedup ∧ checkProofs cnf ps = true) := by
+      c'.take cnf.length = cnf.map dedup ∧ checkProofs cnf ps = true) ∧
+    (∀ e, solveCnf fuel cnf o = .error e → e = .outOfFuel) := by
   unfold solveCnf
   dsimp only
   have ht := unitPropagate_spec ((varsOf (cnf.map dedup)).length + 2) (cnf.map dedup) [] 0
@@ -27,9 +28,9 @@ theorem solveCnf_spec (fuel : Nat) (cnf : CNF) (o : Oracle) :
   dsimp only
   have hinv : Inv (cnf.map dedup) ⟨cnf.map dedup, tr, 0, [], o.res⟩ :=
     ⟨⟨[], by simp⟩, fun c hc σ hσ => hσ c hc, ht.1, TraceOK.nil _, _, rfl, Shadow.refl _⟩
-  obtain ⟨h1, h2⟩ := mainLoop_spec (cnf.map dedup) _ (varsOf (cnf.map dedup)).length fuel fuel
+  obtain ⟨h1, h2, hnc⟩ := mainLoop_spec (cnf.map dedup) _ (varsOf (cnf.map dedup)).length fuel fuel
     _ pr hinv ht.2
-  refine ⟨?_, ?_⟩
+  refine ⟨?_, ?_, hnc⟩
   · intro a ha
     have := h1 a ha
     simp only [isSolution, List.all_eq_true]
